@@ -35,16 +35,27 @@ type ctlRun struct {
 	gid2idx map[int]int
 	ts      int64
 	failed  bool
+	search  bool // the trace or state correspondence broke: the implementation is driven alone from here on and judged by the direct oracles
 	steps   int
 }
 
 func (h *ctlRun) fail(kind, sig, note, impl, want string) {
+	if kind == "mismatch" {
+		if !h.search && !h.failed {
+			h.c.res.Add(hx.Finding{Kind: kind, Engine: "pipectl", Signature: sig, Case: append([]pipeEvent{}, h.trace...), Impl: impl, Model: want, Spec: want, Note: note})
+		}
+		h.search = true
+		return
+	}
 	h.c.res.Add(hx.Finding{Kind: kind, Engine: "pipectl", Signature: sig, Case: append([]pipeEvent{}, h.trace...), Impl: impl, Model: want, Spec: want, Note: note})
 	h.failed = true
 }
 
 func (h *ctlRun) lean(kind, req string) (string, error) {
 	h.trace = append(h.trace, pipeEvent{Kind: kind, Lean: req})
+	if h.search && strings.HasPrefix(req, "pipe.") {
+		return "", nil
+	}
 	return ask1(h.c, req)
 }
 
@@ -103,6 +114,9 @@ func (h *ctlRun) abpDevice(relaxed bool) *simDev {
 // labels advances the model over its internal steps and returns idx -> (op, key) of the gated
 // operation each unfinished model thread stands before.
 func (h *ctlRun) labels() (map[int][2]string, error) {
+	if h.search {
+		return map[int][2]string{}, nil
+	}
 	a, err := ask1(h.c, "pipe.advance")
 	if err != nil {
 		return nil, err
@@ -124,6 +138,9 @@ func (h *ctlRun) labels() (map[int][2]string, error) {
 // checkParked compares the set of operations the real goroutines are parked at with the set the
 // model's threads stand before.
 func (h *ctlRun) checkParked(what string) (map[int][2]string, error) {
+	if h.search {
+		return map[int][2]string{}, nil
+	}
 	lb, err := h.labels()
 	if err != nil {
 		return nil, err
@@ -177,6 +194,7 @@ func (h *ctlRun) packet(raw []byte, dr string, clock uint32) (server.GatewayPack
 // inject delivers a frame to both sides; the handler parks at its first gate.
 func (h *ctlRun) inject(kind string, raw []byte, an []byte, na uint32) error {
 	pkt, radio := h.packet(raw, "SF7BW125", 1000000)
+	h.c.inflight("pipectl", append(append([]pipeEvent{}, h.trace...), pipeEvent{Kind: "in flight: " + kind, Frame: hx.H(raw)}))
 	if err := h.rig.inject(pkt); err != nil {
 		h.fail("propfail", "pipeline-stuck", "C11: "+err.Error(), err.Error(), "")
 		return nil
@@ -186,6 +204,9 @@ func (h *ctlRun) inject(kind string, raw []byte, an []byte, na uint32) error {
 	}
 	req := fmt.Sprintf("pipe.deliver raw=%s gw=%s ts=%d radio=%s dr=SF7BW125 clock=1000000 an=%s na=%d", hx.H(raw), hx.H(h.gwEUI.Octets[:]), h.ts, radio, hx.H(an), na)
 	h.trace = append(h.trace, pipeEvent{Kind: kind, Lean: req, Frame: hx.H(raw)})
+	if h.search {
+		return nil
+	}
 	if _, err := ask1(h.c, req); err != nil {
 		return err
 	}
@@ -196,6 +217,20 @@ func (h *ctlRun) inject(kind string, raw []byte, an []byte, na uint32) error {
 // stepArrival releases one parked goroutine (optionally failing its operation) and steps the
 // corresponding model thread.
 func (h *ctlRun) stepArrival(a *arrival, fault bool) error {
+	if h.search {
+		var e error
+		if fault {
+			e = errInjected
+		}
+		h.g.release(a, e)
+		if err := h.rig.waitStable(10 * time.Second); err != nil {
+			h.fail("propfail", "pipeline-stuck", "C11: "+err.Error(), err.Error(), "")
+			return nil
+		}
+		h.steps++
+		h.trace = append(h.trace, pipeEvent{Kind: fmt.Sprintf("step %s@%s fault=%v (implementation only)", a.op, a.key, fault)})
+		return nil
+	}
 	lb, err := h.labels()
 	if err != nil {
 		return err
@@ -272,6 +307,9 @@ func (h *ctlRun) compare(what string) (string, error) {
 	if err != nil {
 		h.fail("propfail", "store-unreadable", "reading the state back failed: "+err.Error(), err.Error(), "")
 		return "", nil
+	}
+	if h.search {
+		return impl, nil
 	}
 	m, err := ask1(h.c, "pipe.state")
 	if err != nil {
